@@ -201,17 +201,6 @@ theorem forge_element_position' (s : Sequence) (out : List (Nat × ForgedPos)) (
 
 /-! ### a subsequence position -/
 
-theorem mapM_cons_eq {α β : Type} (f : α → Except Err β) (a : α) (t : List α) :
-    (a :: t).mapM f =
-      match f a with
-      | .error e => .error e
-      | .ok b => match t.mapM f with
-        | .error e => .error e
-        | .ok bs => .ok (b :: bs) := by
-  rw [List.mapM_cons]
-  cases f a <;> simp [bind, Except.bind]
-  cases t.mapM f <;> simp [pure, Except.pure]
-
 /-- mapping a fallible function over the values of a dictionary keeps its keys -/
 theorem mapM_vals_get? {α β : Type} (d : Dict Int α) (g : α → Except Err β) (d' : Dict Int β)
     (h : d.mapM (fun pe => (g pe.2).map (fun v => (pe.1, v))) = .ok d') :
